@@ -438,94 +438,7 @@ func r07_4(c *RC) {
 			c.Bad(key, s.Pos(), "SetUsers does not retire the cache of the generation it replaces: a removed user could still be found through the old cache")
 		}
 	}
-	// discoverUser re-check
-	du := p.Fn(suPkg, "discoverUser")
-	if du == nil {
-		c.Anchor("serveruser.discoverUser")
-	} else {
-		var rc *ssa.Parameter
-		var pub *ssa.Parameter
-		for _, prm := range du.Params {
-			if prm.Name() == "requireCurrent" {
-				rc = prm
-			}
-			if prm.Name() == "publisher" {
-				pub = prm
-			}
-		}
-		var tsCall *ssa.Call
-		instrs(du, func(_ *ssa.BasicBlock, _ int, in ssa.Instruction) {
-			if cl, ok := in.(*ssa.Call); ok {
-				if sc := cl.Common().StaticCallee(); sc != nil && sc.Name() == "tryState" {
-					tsCall = cl
-				}
-			}
-		})
-		if rc == nil || pub == nil || tsCall == nil {
-			c.Anchor("discoverUser(publisher, ..., requireCurrent, ...) calling tryState")
-		} else {
-			stateArg := tsCall.Common().Args[0]
-			cut := func(from *ssa.BasicBlock, idx int) bool {
-				iff, ok := from.Instrs[len(from.Instrs)-1].(*ssa.If)
-				if !ok {
-					return false
-				}
-				if iff.Cond == ssa.Value(rc) && idx == 1 {
-					return true // assume requireCurrent == true
-				}
-				if bo, ok := iff.Cond.(*ssa.BinOp); ok && (bo.Op == token.NEQ || bo.Op == token.EQL) {
-					isReload := func(a, b ssa.Value) bool {
-						cl, ok := a.(*ssa.Call)
-						if !ok || !strings.HasSuffix(calleeID(cl), "atomic.Pointer[T]).Load") || cl.Common().Args[0] != ssa.Value(pub) {
-							return false
-						}
-						return b == stateArg && instrDominates(tsCall, cl)
-					}
-					if isReload(bo.X, bo.Y) || isReload(bo.Y, bo.X) {
-						eqIdx := 1
-						if bo.Op == token.EQL {
-							eqIdx = 0
-						}
-						if idx == eqIdx {
-							return true // cut the "still current" edge
-						}
-					}
-				}
-				return false
-			}
-			// explore from the block of tsCall (after it)
-			bad := false
-			start := tsCall.Block()
-			reach := blockReach(start, cut)
-			for b := range reach {
-				for _, in := range b.Instrs {
-					if r, ok := in.(*ssa.Return); ok && len(r.Results) == 2 && isNilConst(r.Results[1]) {
-						// make sure return is after tsCall if same block
-						if b == start && instrIndex(in) < instrIndex(tsCall) {
-							continue
-						}
-						bad = true
-						c.Bad("recheck-generation@discoverUser", r.Pos(), "with requireCurrent, discoverUser can return a successful result without re-checking publisher.Load()==state after tryState: a credential removed by a completed reload would still authenticate a new connection")
-					}
-				}
-			}
-			if !bad {
-				c.OKH("recheck-generation@discoverUser", tsCall.Pos(), "requireCurrent: every path from tryState to a successful return takes the publisher.Load()==state edge (%d blocks explored with that edge cut)", len(reach))
-			}
-			// result.generation = the same state
-			gen := p.Field(suPkg, "discoveryResult", "generation")
-			for _, s := range p.FieldStores(gen) {
-				key := "store:discoveryResult.generation@" + fnName(s.Fn)
-				if s.Fn == du && s.Val == stateArg {
-					c.OKH(key, s.Pos(), "generation = the state that was tried")
-				} else if isNilConst(s.Val) {
-					c.OK(key, s.Pos(), "nil")
-				} else {
-					c.Bad(key, s.Pos(), "discoveryResult.generation is %s, not the generation that tryState examined", describe(s.Val))
-				}
-			}
-		}
-	}
+	ruleRecheckGeneration(c)
 	// immutability of state / user
 	for _, tf := range [][2]string{{"state", "users"}, {"state", "cache"}, {"user", "id"}, {"user", "name"}, {"user", "credential"}, {"user", "decryptor"}, {"user", "policy"}} {
 		f := p.Field(suPkg, tf[0], tf[1])
@@ -755,6 +668,99 @@ func r07_6(c *RC) {
 			c.OK(key, s.Pos(), "constructor / input")
 		default:
 			c.Bad(key, s.Pos(), "Session.userPolicy stored in %s", fnName(s.Fn))
+		}
+	}
+}
+
+// ruleRecheckGeneration: shared by C07 (R07.4) and C05 (R05.7).
+func ruleRecheckGeneration(c *RC) {
+	p := c.P
+	// discoverUser re-check
+	du := p.Fn(suPkg, "discoverUser")
+	if du == nil {
+		c.Anchor("serveruser.discoverUser")
+	} else {
+		var rc *ssa.Parameter
+		var pub *ssa.Parameter
+		for _, prm := range du.Params {
+			if prm.Name() == "requireCurrent" {
+				rc = prm
+			}
+			if prm.Name() == "publisher" {
+				pub = prm
+			}
+		}
+		var tsCall *ssa.Call
+		instrs(du, func(_ *ssa.BasicBlock, _ int, in ssa.Instruction) {
+			if cl, ok := in.(*ssa.Call); ok {
+				if sc := cl.Common().StaticCallee(); sc != nil && sc.Name() == "tryState" {
+					tsCall = cl
+				}
+			}
+		})
+		if rc == nil || pub == nil || tsCall == nil {
+			c.Anchor("discoverUser(publisher, ..., requireCurrent, ...) calling tryState")
+		} else {
+			stateArg := tsCall.Common().Args[0]
+			cut := func(from *ssa.BasicBlock, idx int) bool {
+				iff, ok := from.Instrs[len(from.Instrs)-1].(*ssa.If)
+				if !ok {
+					return false
+				}
+				if iff.Cond == ssa.Value(rc) && idx == 1 {
+					return true // assume requireCurrent == true
+				}
+				if bo, ok := iff.Cond.(*ssa.BinOp); ok && (bo.Op == token.NEQ || bo.Op == token.EQL) {
+					isReload := func(a, b ssa.Value) bool {
+						cl, ok := a.(*ssa.Call)
+						if !ok || !strings.HasSuffix(calleeID(cl), "atomic.Pointer[T]).Load") || cl.Common().Args[0] != ssa.Value(pub) {
+							return false
+						}
+						return b == stateArg && instrDominates(tsCall, cl)
+					}
+					if isReload(bo.X, bo.Y) || isReload(bo.Y, bo.X) {
+						eqIdx := 1
+						if bo.Op == token.EQL {
+							eqIdx = 0
+						}
+						if idx == eqIdx {
+							return true // cut the "still current" edge
+						}
+					}
+				}
+				return false
+			}
+			// explore from the block of tsCall (after it)
+			bad := false
+			start := tsCall.Block()
+			reach := blockReach(start, cut)
+			for b := range reach {
+				for _, in := range b.Instrs {
+					if r, ok := in.(*ssa.Return); ok && len(r.Results) == 2 && retIsNil(r, 1) {
+						// make sure return is after tsCall if same block
+						if b == start && instrIndex(in) < instrIndex(tsCall) {
+							continue
+						}
+						bad = true
+						c.Bad("recheck-generation@discoverUser", r.Pos(), "with requireCurrent, discoverUser can return a successful result without re-checking publisher.Load()==state after tryState: a credential removed by a completed reload would still authenticate a new connection")
+					}
+				}
+			}
+			if !bad {
+				c.OKH("recheck-generation@discoverUser", tsCall.Pos(), "requireCurrent: every path from tryState to a successful return takes the publisher.Load()==state edge (%d blocks explored with that edge cut)", len(reach))
+			}
+			// result.generation = the same state
+			gen := p.Field(suPkg, "discoveryResult", "generation")
+			for _, s := range p.FieldStores(gen) {
+				key := "store:discoveryResult.generation@" + fnName(s.Fn)
+				if s.Fn == du && s.Val == stateArg {
+					c.OKH(key, s.Pos(), "generation = the state that was tried")
+				} else if isNilConst(s.Val) {
+					c.OK(key, s.Pos(), "nil")
+				} else {
+					c.Bad(key, s.Pos(), "discoveryResult.generation is %s, not the generation that tryState examined", describe(s.Val))
+				}
+			}
 		}
 	}
 }
